@@ -130,6 +130,84 @@ func c17Trial(c *Ctx) {
 				return map[string]*ref.T{"i0": numTensor(fr, ref.F32, []int{fr.Range(1, 6), fr.Range(1, 6)})}
 			}}
 		desc = "error paths: " + trunc(req.Describe(), 300)
+	case kind == 14:
+		// Runs of differing input shapes on one model: anything the library keeps per shape
+		// (or per "last seen" operand) between or across Runs is exposed when Runs whose
+		// batch / sequence / spatial extents differ execute at the same time
+		var req mon.OpReq
+		var mask uint64
+		var draw func(fr *gen.R) map[string]*ref.T
+		switch pick := r.Intn(10); {
+		case pick < 6:
+			op := r.PickStr("GRU", "LSTM", "RNN")
+			gates := recGates(op)
+			I, H := r.Range(1, 5), r.Range(1, 6)
+			w := uniformT(r, ref.F32, []int{1, gates * H, I}, 0.4)
+			rr := uniformT(r, ref.F32, []int{1, gates * H, H}, 0.4)
+			var b *ref.T
+			if r.Bool() {
+				b = uniformT(r, ref.F32, []int{1, 2 * gates * H}, 0.4)
+			}
+			withH0 := r.Bool()
+			req = mon.OpReq{Op: op, Inputs: []*ref.T{uniformT(r, ref.F32, []int{2, 2, I}, 2), w, rr, b}, Attrs: []*mon.Attr{mon.AttrI("hidden_size", int64(H))}}
+			mask = 2 | 4 | 8
+			if withH0 {
+				req.Inputs = append(req.Inputs, nil, uniformT(r, ref.F32, []int{1, 2, H}, 1))
+			}
+			draw = func(fr *gen.R) map[string]*ref.T {
+				S, B := fr.Range(1, 4), fr.Range(1, 5)
+				f := map[string]*ref.T{"i0": uniformT(fr, ref.F32, []int{S, B, I}, 2)}
+				if withH0 {
+					f["i5"] = uniformT(fr, ref.F32, []int{1, B, H}, 1)
+				}
+				return f
+			}
+		case pick == 6:
+			C, M, k := r.Range(1, 3), r.Range(1, 3), r.Range(1, 3)
+			req = mon.OpReq{Op: "Conv", Inputs: []*ref.T{numTensor(r, ref.F32, []int{1, C, 4, 4}), numTensor(r, ref.F32, []int{M, C, k, k}), numTensor(r, ref.F32, []int{M})}}
+			mask = 2 | 4
+			draw = func(fr *gen.R) map[string]*ref.T {
+				return map[string]*ref.T{"i0": numTensor(fr, ref.F32, []int{fr.Range(1, 3), C, fr.Range(k, k+4), fr.Range(k, k+4)})}
+			}
+		case pick == 7:
+			k, n := r.Range(2, 12), r.Range(2, 12)
+			req = mon.OpReq{Op: "MatMul", Inputs: []*ref.T{numTensor(r, ref.F32, []int{2, k}), numTensor(r, ref.F32, []int{k, n})}}
+			mask = 2
+			draw = func(fr *gen.R) map[string]*ref.T {
+				shape := []int{fr.Range(1, 5), k}
+				if fr.Bool() {
+					shape = []int{fr.Range(1, 3), fr.Range(1, 4), k}
+				}
+				return map[string]*ref.T{"i0": numTensor(fr, ref.F32, shape)}
+			}
+		case pick == 8:
+			k, n := r.Range(2, 8), r.Range(2, 8)
+			req = mon.OpReq{Op: "Gemm", Inputs: []*ref.T{numTensor(r, ref.F32, []int{2, k}), numTensor(r, ref.F32, []int{k, n}), numTensor(r, ref.F32, []int{n})}}
+			mask = 2 | 4
+			draw = func(fr *gen.R) map[string]*ref.T {
+				return map[string]*ref.T{"i0": numTensor(fr, ref.F32, []int{fr.Range(1, 6), k})}
+			}
+		default:
+			n := r.Range(1, 5)
+			op := r.PickStr("Add", "Mul", "PRelu", "Sub", "Div")
+			req = mon.OpReq{Op: op, Inputs: []*ref.T{numTensor(r, ref.F32, []int{2, n}), numTensor(r, ref.F32, []int{n})}}
+			mask = 2
+			draw = func(fr *gen.R) map[string]*ref.T {
+				shape := []int{fr.Range(1, 5), n}
+				if fr.Bool() {
+					shape = []int{fr.Range(1, 3), fr.Range(1, 3), n}
+				}
+				return map[string]*ref.T{"i0": numTensor(fr, ref.F32, shape)}
+			}
+		}
+		g, _ := mon.BuildOpModel(req, mon.ModelOpts{InitMask: mask, DynamicIn: true, RawInits: r.Bool()})
+		var outs []string
+		for _, o := range g.Outputs {
+			outs = append(outs, o.Name)
+		}
+		spec = &modelSpec{Name: "differing shapes " + req.Op, Bytes: g.Bytes(), Outputs: outs,
+			Feed: func(fr *gen.R, _ int) map[string]*ref.T { return draw(fr) }}
+		desc = "Runs of differing shapes: " + trunc(req.Describe(), 300)
 	case kind == 12:
 		// linear-algebra roles of a shared weight: vector x matrix, matrix x vector,
 		// batched x matrix, vector x batched matrix, Gemm with a transposed weight
@@ -179,7 +257,7 @@ func c17Trial(c *Ctx) {
 	if spec.Heavy {
 		G, R = r.PickInt(2, 3, 4), r.Range(2, 4)
 	}
-	if kind == 12 || kind == 13 { // single small nodes: many goroutines and Runs, so that calls really overlap
+	if kind == 12 || kind == 13 || kind == 14 { // single small nodes: many goroutines and Runs, so that calls really overlap
 		G, R = r.PickInt(8, 16), 12
 	}
 	misshape := !spec.Heavy && r.Chance(0.35)
